@@ -424,6 +424,22 @@ func sinCos(c *smt.Ctx, a *smt.Term) (*smt.Term, *smt.Term) {
 	if fresh {
 		c.Define(c.True(), c.Eq(c.Add(c.Mul(s, s), c.Mul(co, co)), c.RealI(1)))
 		c.Trig = append(c.Trig, smt.TrigPair{Angle: a, Sin: s, Cos: co})
+		// T2: quadrant sign facts (guarded by the range of the angle), pi = math.Pi
+		zero, pi := c.RealI(0), c.RealF(math.Pi)
+		half, three, two := c.RealF(math.Pi/2), c.RealF(3*math.Pi/2), c.RealF(2*math.Pi)
+		in := func(lo, hi *smt.Term) *smt.Term { return c.And(c.Ge(a, lo), c.Le(a, hi)) }
+		c.Define(in(zero, half), c.And(c.Ge(s, zero), c.Ge(co, zero)))
+		c.Define(in(half, pi), c.And(c.Ge(s, zero), c.Le(co, zero)))
+		c.Define(in(pi, three), c.And(c.Le(s, zero), c.Le(co, zero)))
+		c.Define(in(three, two), c.And(c.Le(s, zero), c.Ge(co, zero)))
+		c.Define(in(c.Neg(half), zero), c.And(c.Le(s, zero), c.Ge(co, zero)))
+		c.Define(in(c.Neg(pi), c.Neg(half)), c.And(c.Le(s, zero), c.Le(co, zero)))
+		c.Define(c.Eq(a, zero), c.And(c.Eq(s, zero), c.Eq(co, c.RealI(1))))
+		// strictness inside the open quadrants
+		c.Define(c.And(c.Gt(a, zero), c.Lt(a, pi)), c.Gt(s, zero))
+		c.Define(c.And(c.Gt(a, pi), c.Lt(a, two)), c.Lt(s, zero))
+		c.Define(c.And(c.Gt(a, c.Neg(half)), c.Lt(a, half)), c.Gt(co, zero))
+		c.Define(c.And(c.Gt(a, half), c.Lt(a, three)), c.Lt(co, zero))
 	}
 	return s, co
 }
